@@ -298,4 +298,304 @@ theorem voxel_coord_floor_with (cs : CS) (hcs : cs.ok) (am : AxisMap) (hw : am.w
   rw [vadd_floor_frac] at h
   exact h
 
+/-! ## round 2: coordinate_vector, length / num_voxels, bounding box, point helpers, check_equal -/
+theorem listGetD_zipWith_addQ (v o : List Rat) (p : Nat) (hv : p < v.length) (ho : p < o.length) :
+    listGetD (List.zipWith (· + ·) v o) p 0 = listGetD v p 0 + listGetD o p 0 := by
+  unfold listGetD
+  simp [List.getElem?_zipWith, List.getElem?_eq_getElem hv, List.getElem?_eq_getElem ho]
+
+/-- `coordinate_vector` is the linear part of `coordinate` -/
+theorem coordinate_vector_linear_with (cs : CS) (am : AxisMap) (v w : List Rat)
+    (hb : ∀ pr ∈ am, pr.1 < v.length ∧ pr.1 < w.length) :
+    List.zipWith (· - ·) (coordWith am cs (List.zipWith (· + ·) v w)) (coordWith am cs v) = coordVecWith am cs w := by
+  unfold coordWith coordVecWith
+  rw [zipWith_map_same]
+  rw [← map_zipIdx_fst (fun pr => sgn pr.2 * listGetD w pr.1 0 * cs.h pr.1) am 0]
+  apply List.map_congr_left
+  intro q hq
+  have hm : q.1 ∈ am := List.mem_of_getElem? (List.mem_zipIdx_iff_getElem?.mp hq)
+  obtain ⟨h1, h2⟩ := hb q.1 hm
+  unfold coordAx
+  rw [listGetD_zipWith_addQ v w q.1.1 h1 h2]
+  ring
+
+theorem ceil_int_mul_div (n : Int) (h : Rat) (hh : 0 < h) : Rat.ceil ((n : Rat) * h / h) = n := by
+  have : (n : Rat) * h / h = (n : Rat) := by field_simp
+  rw [this]; exact Rat.ceil_intCast n
+
+theorem ceil_covers (L h : Rat) (hh : 0 < h) :
+    L ≤ ((Rat.ceil (L / h) : Int) : Rat) * h ∧ ((Rat.ceil (L / h) : Int) : Rat) * h < L + h := by
+  have h1 : L / h ≤ ((Rat.ceil (L / h) : Int) : Rat) := Rat.le_ceil
+  have h2 : ((Rat.ceil (L / h) : Int) : Rat) < L / h + 1 := Rat.ceil_lt
+  constructor
+  · have := (div_le_iff₀ hh).mp h1; linarith
+  · have : ((Rat.ceil (L / h) : Int) : Rat) * h < (L / h + 1) * h := mul_lt_mul_of_pos_right h2 hh
+    have e : (L / h + 1) * h = L + h := by field_simp
+    linarith
+
+theorem mkVoxelRev_involutive (xs : List Rat) : mkVoxelRev (ratsOfInts (mkVoxelRev xs)) = mkVoxel xs := by
+  unfold mkVoxelRev
+  rw [mkVoxel_ints, List.reverse_reverse]
+
+theorem mkCenterRev_twice (xs : List Rat) : mkCenterRev (mkCenterRev xs) = mkCenter xs := by
+  unfold mkCenterRev
+  have h : ∀ l : List Rat, mkCenter (l.reverse) = (mkCenter l).reverse := by
+    intro l; unfold mkCenter; rw [List.map_reverse]
+  have hc : mkCenter (mkCenter xs) = mkCenter xs := by
+    unfold mkCenter
+    rw [List.map_map]
+    apply List.map_congr_left
+    intro a _
+    have := floor_int_add (Rat.floor a) (1 / 2) (by norm_num) (by norm_num)
+    simp only [Function.comp]
+    rw [this]
+  rw [h, List.reverse_reverse, hc]
+
+theorem origin_as_map (cs : CS) (hcs : cs.ok) (am : AxisMap) (hw : am.wf cs.dim = true) :
+    (am.zipIdx.map fun q => listGetD cs.origin q.2 0) = cs.origin := by
+  have hz := coord_zero_with cs hcs am hw
+  unfold coordWith at hz
+  simp only [coordAx_zero] at hz
+  exact hz
+
+theorem minR_shift (o D : Rat) (r : Bool) (hD : 0 < D) : minR o (o + sgn r * D) = if r then o - D else o := by
+  cases r
+  · have : o ≤ o + 1 * D := by linarith
+    simp only [minR, sgn, Bool.false_eq_true, if_false, this, if_true]
+  · have : ¬ (o ≤ o + -1 * D) := by intro h; linarith
+    simp only [minR, sgn, if_true, this, if_false]; ring
+theorem maxR_shift (o D : Rat) (r : Bool) (hD : 0 < D) : maxR o (o + sgn r * D) = if r then o else o + D := by
+  cases r
+  · have : o ≤ o + 1 * D := by linarith
+    simp only [maxR, sgn, Bool.false_eq_true, if_false, this, if_true]; ring
+  · have : ¬ (o ≤ o + -1 * D) := by intro h; linarith
+    simp only [maxR, sgn, if_true, this, if_false]
+
+theorem dims_pos_get (cs : CS) (hcs : cs.ok) (p : Nat) (hp : p < cs.dim.toNat) : 0 < listGetD cs.dims p 0 := by
+  unfold listGetD
+  have hd : p < cs.dims.length := by rw [hcs.dimsLen]; exact hp
+  rw [List.getElem?_eq_getElem hd]
+  exact hcs.dimsPos _ (List.getElem_mem hd)
+
+/-- bounding box: `min_coordinate` / `max_coordinate` per Cartesian axis -/
+theorem min_max_with (cs : CS) (hcs : cs.ok) (am : AxisMap) (hw : am.wf cs.dim = true) :
+    List.zipWith minR cs.origin (coordWith am cs (ratsOfNats cs.shape)) =
+      (am.zipIdx.map fun q => if q.1.2 then listGetD cs.origin q.2 0 - listGetD cs.dims q.1.1 0 else listGetD cs.origin q.2 0) ∧
+    List.zipWith maxR cs.origin (coordWith am cs (ratsOfNats cs.shape)) =
+      (am.zipIdx.map fun q => if q.1.2 then listGetD cs.origin q.2 0 else listGetD cs.origin q.2 0 + listGetD cs.dims q.1.1 0) := by
+  have ho := origin_as_map cs hcs am hw
+  obtain ⟨_, hb⟩ := wf_bound hw
+  have key : ∀ q ∈ am.zipIdx, coordAx cs (ratsOfNats cs.shape) q.2 q.1 = listGetD cs.origin q.2 0 + sgn q.1.2 * listGetD cs.dims q.1.1 0 := by
+    intro q hq
+    have hm : q.1 ∈ am := List.mem_of_getElem? (List.mem_zipIdx_iff_getElem?.mp hq)
+    have := coordAx_shape cs hcs q.2 q.1 (hb _ hm)
+    linarith
+  constructor
+  · conv => lhs; rw [← ho]
+    unfold coordWith
+    rw [zipWith_map_same]
+    apply List.map_congr_left
+    intro q hq
+    have hm : q.1 ∈ am := List.mem_of_getElem? (List.mem_zipIdx_iff_getElem?.mp hq)
+    rw [key q hq, minR_shift _ _ _ (dims_pos_get cs hcs _ (hb _ hm))]
+  · conv => lhs; rw [← ho]
+    unfold coordWith
+    rw [zipWith_map_same]
+    apply List.map_congr_left
+    intro q hq
+    have hm : q.1 ∈ am := List.mem_of_getElem? (List.mem_zipIdx_iff_getElem?.mp hq)
+    rw [key q hq, maxR_shift _ _ _ (dims_pos_get cs hcs _ (hb _ hm))]
+
+/-- every position of the image (0 ≤ v_p ≤ N_p on each matrix axis) has its coordinate inside the bounding box -/
+theorem coordAx_in_box (cs : CS) (hcs : cs.ok) (v : List Rat) (i : Nat) (pr : Nat × Bool) (hp : pr.1 < cs.dim.toNat)
+    (h0 : 0 ≤ listGetD v pr.1 0) (h1 : listGetD v pr.1 0 ≤ ((listGetD cs.shape pr.1 0 : Nat) : Rat)) :
+    (if pr.2 then listGetD cs.origin i 0 - listGetD cs.dims pr.1 0 else listGetD cs.origin i 0) ≤ coordAx cs v i pr ∧
+    coordAx cs v i pr ≤ (if pr.2 then listGetD cs.origin i 0 else listGetD cs.origin i 0 + listGetD cs.dims pr.1 0) := by
+  have hh := CS.h_pos cs hcs pr.1 hp
+  have hD : ((listGetD cs.shape pr.1 0 : Nat) : Rat) * cs.h pr.1 = listGetD cs.dims pr.1 0 := by
+    have := coordAx_shape cs hcs 0 (pr.1, false) hp
+    unfold coordAx at this
+    have hs : pr.1 < cs.shape.length := by rw [hcs.shapeLen]; exact hp
+    have e : listGetD (ratsOfNats cs.shape) pr.1 0 = ((listGetD cs.shape pr.1 0 : Nat) : Rat) := by
+      unfold listGetD ratsOfNats; simp [List.getElem?_map, List.getElem?_eq_getElem hs]
+    simp only [sgn, Bool.false_eq_true, if_false] at this
+    rw [e] at this
+    linarith
+  have a : 0 ≤ listGetD v pr.1 0 * cs.h pr.1 := mul_nonneg h0 (le_of_lt hh)
+  have b : listGetD v pr.1 0 * cs.h pr.1 ≤ listGetD cs.dims pr.1 0 := by
+    rw [← hD]; exact mul_le_mul_of_nonneg_right h1 (le_of_lt hh)
+  unfold coordAx
+  cases pr.2 <;> simp [sgn] <;> constructor <;> linarith
+
+theorem npClose_refl (x : Rat) : npClose x x = true := by
+  unfold npClose absQ
+  simp only [sub_self, le_refl, if_true, decide_eq_true_eq]
+  have : (0 : Rat) ≤ if 0 ≤ x then x else -x := by split <;> linarith
+  linarith
+
+/-- `np.isclose` is NOT symmetric: 1000 is close to 1000.0100001 but not the other way round -/
+theorem npClose_not_symm : npClose 1000 (10000100001 / 10000000) = true ∧ npClose (10000100001 / 10000000) 1000 = false := by
+  decide +kernel
+
+theorem zipWith_all_self (close : Rat → Rat → Bool) (hr : ∀ x, close x x = true) (a : List Rat) :
+    (List.zipWith close a a).all id = true := by
+  induction a with
+  | nil => rfl
+  | cons x a ih => simp only [List.zipWith_cons_cons, List.all_cons, hr x, id, Bool.true_and]; exact ih
+
+theorem allcloseL_refl (close : Rat → Rat → Bool) (hr : ∀ x, close x x = true) (a : List Rat) :
+    allcloseL close a a = .ok true := by
+  unfold allcloseL; simp only [if_true]; rw [zipWith_all_self close hr a]
+
+theorem zipWith_close_comm (close : Rat → Rat → Bool) (hs : ∀ x y, close x y = close y x) (a b : List Rat) :
+    List.zipWith close a b = List.zipWith close b a := by
+  induction a generalizing b with
+  | nil => cases b <;> rfl
+  | cons x a ih => cases b with
+    | nil => rfl
+    | cons y b => simp [hs x y, ih b]
+
+theorem allcloseL_symm (close : Rat → Rat → Bool) (hs : ∀ x y, close x y = close y x) (a b : List Rat) :
+    allcloseL close a b = allcloseL close b a := by
+  unfold allcloseL
+  by_cases h : a.length = b.length
+  · simp [h, zipWith_close_comm close hs a b]
+  · have h' : ¬ b.length = a.length := fun e => h e.symm
+    simp only [h, h', if_false]
+    by_cases ha : a.length = 1
+    · have hb : ¬ b.length = 1 := fun e => h (by rw [ha, e])
+      simp only [ha, hb, if_true, if_false]
+      congr 1; congr 1; funext y; exact hs _ _
+    · simp only [ha, if_false]
+      by_cases hb : b.length = 1
+      · simp only [hb, if_true]
+        congr 1; congr 1; funext y; exact hs _ _
+      · simp only [hb, if_false]
+theorem axisMap_exists' (d : Dim) : ∃ am, axisMap d = .ok am := by
+  cases d
+  · exact ⟨[(0, false)], by decide⟩
+  · exact ⟨[(1, false), (0, true)], by decide⟩
+  · exact ⟨[(1, false), (2, true), (0, true)], by decide⟩
+
+theorem foldlM_true {α} (f : Bool → α → Except Err Bool) (l : List α) (h : ∀ i ∈ l, f true i = .ok true) :
+    l.foldlM f true = .ok true := by
+  induction l with
+  | nil => rfl
+  | cons x l ih =>
+    rw [List.foldlM_cons, h x (by simp)]
+    exact ih (fun i hi => h i (by simp [hi]))
+
+theorem voxelSizeClose_refl (close : Rat → Rat → Bool) (hr : ∀ x, close x x = true) (c : CS) :
+    voxelSizeClose close c c = .ok true := by
+  obtain ⟨am, ham⟩ := axisMap_exists' c.dim
+  unfold voxelSizeClose
+  simp only [ham, bind, Except.bind]
+  apply foldlM_true
+  intro i hi
+  have : ¬ c.dim.toNat ≤ i := by simpa using hi
+  simp [this, hr, pure, Except.pure]
+
+/-- `check_equal_coordinatesystems(cs, cs)` succeeds with an empty log, for any reflexive closeness test -/
+theorem checkEqualWith_refl (close : Rat → Rat → Bool) (hr : ∀ x, close x x = true) (c : CS) (ex : Bool) :
+    checkEqualWith close c c ex = .ok (true, []) := by
+  obtain ⟨am, ham⟩ := axisMap_exists' c.dim
+  have hopp : c.opposite = .ok (coordWith am c (ratsOfNats c.shape)) := by
+    simp only [CS.opposite, CS.coordinate, ham, Except.map]
+  unfold checkEqualWith
+  simp only [allcloseL_refl close hr, voxelSizeClose_refl close hr, hopp, bind, Except.bind, pure, Except.pure]
+  cases ex <;> simp
+
+theorem voxelSizeClose_symm (close : Rat → Rat → Bool) (hs : ∀ x y, close x y = close y x) (c1 c2 : CS)
+    (hd : c1.dim = c2.dim) : voxelSizeClose close c1 c2 = voxelSizeClose close c2 c1 := by
+  obtain ⟨am, ham⟩ := axisMap_exists' c1.dim
+  have ham2 : axisMap c2.dim = .ok am := by rw [← hd]; exact ham
+  unfold voxelSizeClose
+  simp only [ham, ham2, bind, Except.bind, hd]
+  congr 1
+  funext ok i
+  rw [hs]
+
+/-- for images of the same dimension and a symmetric closeness test the comparison is symmetric
+(result and failure log) -/
+theorem checkEqualWith_symm (close : Rat → Rat → Bool) (hs : ∀ x y, close x y = close y x) (c1 c2 : CS)
+    (hd : c1.dim = c2.dim) (ex : Bool) : checkEqualWith close c1 c2 ex = checkEqualWith close c2 c1 ex := by
+  obtain ⟨am, ham⟩ := axisMap_exists' c1.dim
+  have ham2 : axisMap c2.dim = .ok am := by rw [← hd]; exact ham
+  have h1 : c1.opposite = .ok (coordWith am c1 (ratsOfNats c1.shape)) := by
+    simp only [CS.opposite, CS.coordinate, ham, Except.map]
+  have h2 : c2.opposite = .ok (coordWith am c2 (ratsOfNats c2.shape)) := by
+    simp only [CS.opposite, CS.coordinate, ham2, Except.map]
+  unfold checkEqualWith
+  rw [allcloseL_symm close hs (ratsOfNats c1.shape), allcloseL_symm close hs c1.dims, allcloseL_symm close hs c1.origin,
+    voxelSizeClose_symm close hs c1 c2 hd]
+  simp only [h1, h2, bind, Except.bind, hd]
+  rw [allcloseL_symm close hs (coordWith am c1 (ratsOfNats c1.shape))]
+
+/-! ### in-place changes of the geometry keep it well formed -/
+theorem setAt_length {α} (l : List α) (p : Nat) (x : α) : (setAt l p x).length = l.length := by
+  induction l generalizing p with
+  | nil => rfl
+  | cons y ys ih => cases p <;> simp [setAt, ih]
+
+theorem defaultOriginWith_length (mm : AxisMap) (dims : List Rat) : (defaultOriginWith mm dims).length = mm.length := by
+  unfold defaultOriginWith
+  have : ∀ (l : List ((Nat × Bool) × Nat)) (init : List Rat),
+      (l.foldl (fun o q => if q.1.2 then setAt o q.1.1 (listGetD dims q.2 0) else o) init).length = init.length := by
+    intro l
+    induction l with
+    | nil => intro init; rfl
+    | cons q l ih =>
+      intro init
+      simp only [List.foldl_cons]
+      rw [ih]
+      split
+      · exact setAt_length _ _ _
+      · rfl
+  rw [this]; simp
+
+theorem defaultOrigin_length (d : Dim) (dims o : List Rat) (h : defaultOrigin d dims = .ok o) : o.length = d.toNat := by
+  unfold defaultOrigin at h
+  cases d
+  · have hm : matMap .d1 = .ok [(0, false)] := by decide
+    rw [hm] at h; simp only [Except.map] at h; injection h with h; rw [← h, defaultOriginWith_length]; rfl
+  · have hm : matMap .d2 = .ok [(1, true), (0, false)] := by decide
+    rw [hm] at h; simp only [Except.map] at h; injection h with h; rw [← h, defaultOriginWith_length]; rfl
+  · have hm : matMap .d3 = .ok [(2, true), (0, false), (1, true)] := by decide
+    rw [hm] at h; simp only [Except.map] at h; injection h with h; rw [← h, defaultOriginWith_length]; rfl
+
+theorem applyOp_ok (cs cs' : CS) (op : GeomOp) (hcs : cs.ok) (hop : op.okFor cs.dim) (h : cs.applyOp op = .ok cs') :
+    cs'.ok ∧ cs'.dim = cs.dim ∧ cs'.shape = cs.shape := by
+  cases op with
+  | touch => simp only [CS.applyOp] at h; injection h with h; subst h; exact ⟨hcs, rfl, rfl⟩
+  | resetOrigin =>
+    simp only [CS.applyOp] at h
+    cases hd : defaultOrigin cs.dim cs.dims with
+    | error e => rw [hd] at h; simp [Except.map] at h
+    | ok o =>
+      rw [hd] at h; simp only [Except.map] at h; injection h with h; subst h
+      exact ⟨⟨hcs.shapeLen, hcs.dimsLen, defaultOrigin_length _ _ _ hd, hcs.shapePos, hcs.dimsPos⟩, rfl, rfl⟩
+  | setOrigin o =>
+    simp only [CS.applyOp] at h; injection h with h; subst h
+    exact ⟨⟨hcs.shapeLen, hcs.dimsLen, hop, hcs.shapePos, hcs.dimsPos⟩, rfl, rfl⟩
+  | setDimensions D =>
+    simp only [CS.applyOp] at h; injection h with h; subst h
+    exact ⟨⟨hcs.shapeLen, hop.1, hcs.originLen, hcs.shapePos, hop.2⟩, rfl, rfl⟩
+
+theorem applyOps_ok (ops : List GeomOp) : ∀ (cs cs' : CS), cs.ok → (∀ op ∈ ops, op.okFor cs.dim) →
+    cs.applyOps ops = .ok cs' → cs'.ok ∧ cs'.dim = cs.dim ∧ cs'.shape = cs.shape := by
+  induction ops with
+  | nil =>
+    intro cs cs' hcs _ h
+    simp only [CS.applyOps, List.foldlM_nil, pure, Except.pure] at h
+    injection h with h; subst h; exact ⟨hcs, rfl, rfl⟩
+  | cons op ops ih =>
+    intro cs cs' hcs hop h
+    simp only [CS.applyOps, List.foldlM_cons, bind, Except.bind] at h
+    split at h
+    · exact absurd h (by simp)
+    · next c1 h1 =>
+      obtain ⟨a, b, c⟩ := applyOp_ok cs c1 op hcs (hop op (by simp)) h1
+      obtain ⟨a', b', c'⟩ := ih c1 cs' a (fun o ho => by rw [b]; exact hop o (by simp [ho])) h
+      exact ⟨a', by rw [b', b], by rw [c', c]⟩
+
 end Darsia
